@@ -411,6 +411,35 @@ pub fn run_program(
     let redeem = satisfied.redeem();
     let mut facts = vec![];
     facts.push(format!("cmr={}", if redeem.cmr() == commit_cmr { "same" } else { "DIFF" }));
+    if pruned {
+        // the program as returned (in memory), before any encoding
+        let m = match BitMachine::for_program(redeem) {
+            Ok(mut mac) => match mac.exec(redeem, &env) {
+                Ok(_) => "ok".to_string(),
+                Err(_) => "fail".to_string(),
+            },
+            Err(_) => "limits".to_string(),
+        };
+        facts.push(format!("mexec={}", m));
+        // two DIFFERENT nodes with one identity hash (an assertl and an assertr that stem from case nodes which became
+        // equal after pruning): such a program has no canonical encoding, the encoder merges the two nodes
+        use simplicity::dag::{DagLike, InternalSharing};
+        let mut seen: HashMap<simplicity::Ihr, String> = HashMap::new();
+        let mut twins = false;
+        for item in redeem.as_ref().post_order_iter::<InternalSharing>() {
+            let tag = match item.node.inner() {
+                Inner::AssertL(_, c) => format!("assertl {}", c),
+                Inner::AssertR(c, _) => format!("assertr {}", c),
+                _ => continue,
+            };
+            if let Some(old) = seen.insert(item.node.ihr(), tag.clone()) {
+                if old != tag {
+                    twins = true;
+                }
+            }
+        }
+        facts.push(format!("twins={}", if twins { "yes" } else { "no" }));
+    }
     let (prog_bytes, wit_bytes) = redeem.encode_to_vec();
     let decoded = RedeemNode::<Elements>::decode(
         simplicity::BitIter::from(prog_bytes.iter().copied()),
